@@ -223,6 +223,9 @@ class _ImmutableTaskList:
             return t.parent.id if t.parent else None
         if attribute_name == 'id':
             return t.id
+        if attribute_name in ('estimate', 'spent'):
+            # These two are properties, they are not listed in t.__dict__
+            return t.__getattribute__(attribute_name)
         return t.__getattribute__(attribute_name) if attribute_name in t.__dict__ else None
 
     def __call__(
